@@ -268,6 +268,21 @@ static void aead_mode(int alg, int tier)
         e[l + 2] ^= 1; r = api_masked_dec[alg](p, &ml, e, l + 16, ad, a, nonce, &mk); if (r >= 0) hx_fail(kb, "masked decryption accepts a forged tag: tape %s", tname[tm]);
         api_masked_key_free(alg, &mk);
     }
+    /* long messages and long associated data (hundreds to thousands of blocks in one call) under every random tape */
+    {
+        static const size_t longs[] = {255, 256, 1023, 1024, 1025, 4097, 16384, 65537}; static uint8_t bm[66000], be[66100], bc[66100], bp[66000];
+        hx_fill(bm, sizeof bm, HX_P_DENSE, 44);
+        for (int tm = 0; tm < T_EXPLICIT; tm++) for (unsigned i = 0; i < 8; i++) for (int which = 0; which < 2; which++) {
+            size_t a = which ? longs[i] : 5, l = which ? 7 : longs[i], cl = 0, ml = 0; api_masked_key mk; tape(tm, (int)(i * 2 + which));
+            api_masked_key_init(alg, &mk, key);
+            api_aead_enc[alg](be, &cl, bm, l, bm + 3, a, nonce, key);
+            api_masked_enc[alg](bc, &cl, bm, l, bm + 3, a, nonce, &mk); n++;
+            if (cl != l + 16 || memcmp(bc, be, cl)) { size_t k = 0; while (k < cl && bc[k] == be[k]) k++; hx_fail(kb, "masked encryption differs from the unmasked function at byte %zu: adlen=%zu mlen=%zu random tape %s", k, a, l, tname[tm]); }
+            int r = api_masked_dec[alg](bp, &ml, be, l + 16, bm + 3, a, nonce, &mk); n++;
+            if (r != 0 || ml != l || memcmp(bp, bm, l)) hx_fail(kb, "masked decryption of the unmasked ciphertext fails (%d): adlen=%zu mlen=%zu random tape %s", r, a, l, tname[tm]);
+            api_masked_key_free(alg, &mk);
+        }
+    }
     hx_stat("evaluations", n); hx_stat("nontrivial", n);
     hx_sample("masked AEAD %s == unmasked for every shape x 7 random-tape generators (zero, ones, period-2/3, walking bit, counter, dense)", api_alg_name[alg]);
 }
